@@ -518,6 +518,14 @@ def h4(cx):
     n += 1
     cx.check(kp == "py" and kx == "xo", s, construct=f"setattr(new_class, {norm(pyn)} : {kp}, _FieldOfDressed({norm(xon)} : {kx}, ...))", detail="python attribute name = renamed name, descriptor bound to the struct field name",
              bad_detail="descriptor is not installed under the renamed python name for the struct field name")
+    _h4_xoinit_todict(cx, m, n)
+
+
+@rule("H4e", ["C18", "C19"], "rename maps, evaluated: the metaclass binds one descriptor per python name to its struct field, keeps the tables inverse of each other, and refuses maps that alias two fields")
+def h4e(cx):
+    m = cx.m
+    mh = m.func(f"{MHC}.__new__")
+    n = 0
     # ---- evaluated: the metaclass is run on a two-field class with rename maps that are fine / alias two fields /
     # take the name of an unrenamed field; the tables and descriptors of the accepted class are compared
     from .layout import Lab
@@ -560,6 +568,10 @@ def h4(cx):
             if bad:
                 break
         cx.check(not bad, None, construct=label, detail="descriptor per python name bound to its struct field; rename tables inverse of each other", bad_detail=f"class construction under renaming: {bad}", anchor=f"{MHC}.__new__", sub="tables")
+    cx.need(n >= 5, f"only {n} rename-map cases")
+
+
+def _h4_xoinit_todict(cx, m, n):
     # ---- xoinitialize: struct kwargs keyed by xo names
     f = m.func(f"{HC}.xoinitialize")
     env = {"kk": "any"}
@@ -693,7 +705,10 @@ def j2(cx):
     f = m.func(f"{HC}.to_dict")
     # J2 single source of defaults
     dl = [s for s in own_nodes(f) if isinstance(s, ast.Assign) and isinstance(s.targets[0], ast.Subscript) and norm(s.targets[0].value) == "defaults"]
-    cx.check(len(dl) == 1 and norm(dl[0].value) == "field.get_default()", dl[0] if dl else f, construct="defaults[...] = field.get_default()", detail="elision compares against Field.get_default()", bad_detail="elision default is not Field.get_default()", sub="J2")
+    if len(dl) == 1 and norm(dl[0].value) == "field.get_default()":
+        cx.ok(dl[0], construct="defaults[...] = field.get_default()", detail="elision compares against Field.get_default()", sub="J2")
+    else:
+        cx.note(f, construct="to_dict: the table of declared defaults is built in another shape", detail="that the elision compares with the class's OWN declared defaults is decided by rule JD (round trip incl. a subclass re-declaring a default)")
     # evaluated: Field.get_default / Field.value_from_args on field declarations of every default kind
     from ..peval import Interp, Builtin as _B, Opaque as _Op
     m.func("struct::Field.value_from_args"), m.func("struct::Field.get_default")
